@@ -59,6 +59,13 @@ VerdictCor ==
       nu == Sub(Ev.La1, Ev.La0)        \* nutation in longitude
   IN Viol("FK5_SIZE", /\ Ge(dl, Arcsec(Neg(Dec(974, 4)))) /\ Le(dl, Arcsec(Neg(Dec(833, 4))))
                       /\ Le(Abs(db), Arcsec(Dec(554, 4))))
+\* ... and exactly the documented one (Meeus 32.3):  L' = L - 1.397 T - 0.00031 T^2,
+\*   dL = -0.09033" + 0.03916" (cos L' + sin L') tan B,   dB = 0.03916" (cos L' - sin L')       (to 2e-4 arcsec)
+\cup Viol("WITNESS", /\ Within(Add(Mul(Ev.cLp, Ev.cLp), Mul(Ev.sLp, Ev.sLp)), One, Dec(1, 12))
+                     /\ Within(Ev.Lp, Sub(Sub(Ev.L0, Mul(Dec(1397, 3), Ev.T)), Mul(Dec(31, 5), Mul(Ev.T, Ev.T))), Dec(1, 9)))
+\cup Viol("FK5_FORMULA",
+          /\ Within(MulInt(dl, 3600), Add(Neg(Dec(9033, 5)), Mul(Mul(Dec(3916, 5), Add(Ev.cLp, Ev.sLp)), Ev.tB)), Dec(2, 4))
+          /\ Within(MulInt(db, 3600), Mul(Dec(3916, 5), Sub(Ev.cLp, Ev.sLp)), Dec(2, 4)))
 \cup Viol("ABERRATION_SIZE", Within(Mul(MulInt(ab, 3600), Ev.R), Neg(Dec(204898, 4)), Dec(2, 3)))
 \cup Viol("NUTATION_TERM", Within(nu, Ev.dpsi, Dec(1, 9)))
 
